@@ -122,7 +122,7 @@ func RunRules(p *Program, property string, rules []*Rule, findings []Finding, re
 			}
 			if o.Verdict == Violated {
 				for k, fd := range findings {
-					if fd.Rule == o.Rule && fd.Construct == o.Construct && fd.Props[property] {
+					if fd.Rule == o.Rule && fd.Construct == o.Construct && (fd.Props[property] || property == "*") {
 						o.Verdict = Known
 						o.Detail = strings.TrimSpace(o.Detail + " [known finding: " + fd.What + "]")
 						usedFinding[k] = true
